@@ -37,10 +37,16 @@ PRELUDE = [
 ]
 
 
-def idx_expr(g, l):
-    """an index expression around the boundaries of list variable l"""
-    k = g.weighted([(8, "0"), (3, "1"), (8, "last"), (1, "len"), (1, "len+1"), (1, "-1"), (1, "2")])
+def idx_expr(g, l, any_kind=False):
+    """an index expression around the boundaries of list variable l (any_kind: the index may be a bigint - only
+    `l[i]` takes those, `remove` wants an int)"""
+    w = 1 if any_kind else 0
+    k = g.weighted([(8, "0"), (3, "1"), (8, "last"), (1, "len"), (1, "len+1"), (1, "-1"), (1, "2"), (w, "big0"), (w, "big-2^64")])
     ln = ("mcall", V(l), "len", [])
+    if k == "big0":
+        return ("lit", "bigint", 0), k             # an index of another integer kind
+    if k == "big-2^64":
+        return ("lit", "bigint", 2 ** 64), k       # congruent to 0 modulo 2^64: out of range, not element 0
     if k == "0":
         return I(0), k
     if k == "1":
@@ -99,16 +105,16 @@ def cases(draw):
             boundary |= k in ("last", "len", "len+1", "-1")
             stmts.append(("print", ("mcall", V(l), "remove", [i])))
         elif op == "read":
-            i, k = idx_expr(g, l)
+            i, k = idx_expr(g, l, True)
             boundary |= k in ("last", "len", "len+1", "-1")
             stmts.append(("print", ("index", V(l), i)))
         elif op == "assign":
-            i, k = idx_expr(g, l)
+            i, k = idx_expr(g, l, True)
             boundary |= k in ("last", "len", "len+1", "-1")
             stmts.append(("seti", V(l), i, I(g.int(10, 19))))
         elif op == "opassign":
             i, k = idx_expr(g, l)
-            stmts.append(("opassign", ("index", V(l), i), g.choice(["+=", "-=", "*="]), I(g.int(1, 3))))
+            stmts.append(("opassign", ("index", V(l), i), g.choice(["+=", "-=", "*=", "/=", "%=", "%="]), I(g.int(2, 5))))
         elif op == "reverse":
             stmts.append(("expr", ("mcall", V(l), "reverse", [])))
         elif op == "join":
@@ -145,7 +151,23 @@ def cases(draw):
             g.label("filter")
         elif op == "index_of":
             e = ("mcall", V(l), "index_of", [I(g.int(0, 9))])
-            stmts.append(("print", ("or", e, V("neg1"))) if g.chance(50) else ("print", ("bin", "==", e, ("nil",))))
+            if g.chance(35):
+                # the position found (or a default) is USED: as index, as argument of remove, as map value
+                g.label("found-position-used")
+                pos = "pos%d" % len(stmts)
+                stmts.append(("decl", pos, None, ("or", e, I(0)), ()))
+                use = g.choice(["index", "remove", "arith", "store"])
+                if use == "index":
+                    stmts.append(("print", ("index", V(l), V(pos))))
+                elif use == "remove":
+                    stmts.append(("print", ("mcall", V(l), "remove", [V(pos)])))
+                elif use == "arith":
+                    stmts.append(("print", ("bin", "+", ("bin", "*", V(pos), I(2)), I(1))))
+                else:
+                    stmts.append(("decl", pos + "l", LI, ("list", [V(pos)]), ()))
+                    stmts.append(("print", ("index", V(l), ("index", V(pos + "l"), I(0)))))
+            else:
+                stmts.append(("print", ("or", e, V("neg1"))) if g.chance(50) else ("print", ("bin", "==", e, ("nil",))))
         elif op == "len":
             stmts.append(("print", ("mcall", V(l), "len", [])))
         elif op == "eq":
@@ -348,6 +370,12 @@ def check(case):
             r.rejected = True
             if os.environ.get("MSV_DEBUG"):
                 print("REJECTED:\n" + hist + "\n" + run.stdout[:800])
+            if failure is None:
+                # the reference interpreter runs this program to completion: a compile-time rejection of it is a violation
+                # (when the model predicts a run-time failure, the compiler may legitimately report it earlier)
+                diag = "\n".join(l for l in run.stdout.split("\n") if " = " in l or "-->" in l)[:600]
+                r.failure = fail("the compiler rejected a program that the language accepts and the reference interpreter runs:\n" + diag + "\n" + hist,
+                                 "C13:rejected-valid-program", sc, case={"diagnostics": diag})
             return r
         feats = [l for l in case["labels"] if l in ("self-join", "optional-from-builtin-stored-in-list")]
         if "join(" in hist:
